@@ -158,15 +158,24 @@ def _tup(v):
     return tuple(v) if isinstance(v, list) else v
 
 
+def _num(v):
+    """Partially ordered attribute values for C03: {"fs": [...]} is a frozenset, "nan" is float('nan')."""
+    if isinstance(v, dict) and "fs" in v:
+        return frozenset(v["fs"])
+    if v == "nan":
+        return float("nan")
+    return v
+
+
 def build_world(spec):
     """spec = {"P": [{a,b,s,t,d,flag}, ...], "Q": [{a,b,p:<index into P>}, ...]}  ->  {"P": [objs], "Q": [objs]}"""
     ps = []
     for i, f in enumerate(spec.get("P", [])):
-        ps.append(P(a=f.get("a", 1), b=f.get("b", 1), s=f.get("s", "x"), t=_tup(f.get("t", ())),
+        ps.append(P(a=_num(f.get("a", 1)), b=_num(f.get("b", 1)), s=f.get("s", "x"), t=_tup(f.get("t", ())),
                     d=dict(f.get("d", {})), flag=f.get("flag", True), ix=i))
     qs = []
     for i, f in enumerate(spec.get("Q", [])):
-        qs.append(Q(a=f.get("a", 1), p=ps[f["p"]] if f.get("p") is not None else None, b=f.get("b", 1), ix=i))
+        qs.append(Q(a=_num(f.get("a", 1)), p=ps[f["p"]] if f.get("p") is not None else None, b=_num(f.get("b", 1)), ix=i))
     es = []
     for i, f in enumerate(spec.get("E", [])):
         # ix is deliberately the same for all: it takes part in the generated __eq__, equal-valued objects must compare equal
